@@ -9,7 +9,7 @@ from epsie.samplers import MetropolisHastingsSampler, ParallelTemperedSampler
 from epsie.chain import ParallelTemperedChain, Chain
 from epsie.proposals.base import BaseAdaptiveSupport
 
-from .. import core
+from .. import core, configs as C
 from .. import alias as A
 from ..adapt import FAMILIES, StubChain, history
 from ..models import GaussModel
@@ -291,6 +291,71 @@ def pt_reset_runs(rng, out, n, thorough):
     return terms, metas
 
 
+ADAPTED_ATTRS = ('_std', '_cov', '_log_lambda', '_mean', '_unit_cov', 'n_accepted', '_mu', '_kappa', '_log_kappa')
+
+
+def constructed(p):
+    import copy
+    return {a: copy.deepcopy(getattr(p, a)) for a in ADAPTED_ATTRS if getattr(p, a, None) is not None}
+
+
+def differs_from_constructed(p, c0):
+    bad = [a for a, v in c0.items() if not numpy.array_equal(numpy.asarray(getattr(p, a), dtype=float), numpy.asarray(v, dtype=float))]
+    if p.start_step != max(p.nsteps, 1):
+        bad.append('start_step=%r at proposal step %r' % (p.start_step, p.nsteps))
+    return bad
+
+
+def nested_and_mixed_cases(rng, out, n):
+    """the chain's adaptive proposals need not be the top-level entries of its proposal list: they may be the in-model proposals of a
+    nested transdimensional proposal, and they may be listed after proposals without adaptation"""
+    from epsie.chain import Chain
+    from ..models import GaussModel
+    for i in range(n):
+        if i % 2 == 0:
+            cfg = C.gen(rng, kind='td', allow_annealer=False)
+            cfg['td_family'] = rng.choice(['adaptive_normal', 'ss_adaptive_normal', 'at_adaptive_normal'])
+            cfg.update(pt=False, ntemps=1, nchains=1, blobs=False, T=40)
+            s = C.build(cfg)
+            s.start_position = C.start_position(cfg)
+            ch = s.chains[0]
+            inner = list(ch.proposal_dist.proposals[0].proposals)
+            desc = dict(kind='nested', config=cfg)
+        else:
+            order = rng.choice(['plain_first', 'adaptive_first'])
+            fam = rng.choice(['adaptive', 'ss', 'at'])
+            ad = {'adaptive': lambda: P.AdaptiveNormal(['b'], {'b': 8.}, adaptation_duration=40),
+                  'ss': lambda: P.SSAdaptiveNormal(['b']), 'at': lambda: P.ATAdaptiveNormal(['b'], adaptation_duration=40)}[fam]()
+            plain = P.Normal(['a'], cov=[0.5])
+            props = [plain, ad] if order == 'plain_first' else [ad, plain]
+            ch = Chain(['a', 'b'], GaussModel(['a', 'b'], sigma=1.0, mu=0.5, lo=-30., hi=30., blobs=False, log=False), props,
+                       bit_generator=numpy.random.PCG64(rng.randrange(1, 10 ** 6)))
+            ch.start_position = {'a': 0.3, 'b': -0.2}
+            inner = [q for q in ch.proposal_dist.proposals if hasattr(q, '_reset_adaptation')]
+            desc = dict(kind='mixed', order=order, family=fam)
+        c0 = [constructed(q) for q in inner]
+        nres = rng.choice([1, 2, 3])
+        for r in range(nres):
+            for _ in range(rng.choice([8, 15, 25])):
+                ch.step()
+            changed = any(differs_from_constructed(q, c) for q, c in zip(inner, c0))
+            ch.reset_proposals()
+            out.evaluations += 1
+            out.count('nested_or_mixed_resets')
+            if changed:
+                out.nontrivial.add(repr((desc['kind'], i, r)))
+            for j, (q, c) in enumerate(zip(inner, c0)):
+                bad = differs_from_constructed(q, c)
+                if bad:
+                    out.violations.append(dict(
+                        what='reset #%d of a chain whose adaptive proposal %s (%s): after chain.reset_proposals() it differs from what was '
+                             'constructed in %s' % (r + 1, q.name, 'is in-model proposal %d of a nested transdimensional proposal' % j
+                                                    if desc['kind'] == 'nested' else 'is listed %s a proposal without adaptation'
+                                                    % ('after' if desc.get('order') == 'plain_first' else 'before'), bad[:4]),
+                        replay=dict(desc, reset=r + 1, proposal=q.name)))
+                    return
+
+
 def run(seed, tier):
     thorough = tier == 'thorough'
     rng = random.Random(seed * 104729 + 19)
@@ -351,6 +416,8 @@ def run(seed, tier):
                 out.violations.append(v)
                 if len(out.violations) >= 4:
                     break
+    if len(out.violations) < 4:
+        nested_and_mixed_cases(rng, out, 24 if thorough else 8)
     failing = core.run_coq_cases('C19', A.HEADER, terms, eval_fn='failing', per_file=6)
     for f in failing[:10]:
         out.corr_failures.append(dict(note='copying semantics (Alias.v) and the real objects disagree at action %d' % (f[1] - 1),
